@@ -1,16 +1,20 @@
 """C14 -- A snippet alias expands exactly like its definition, and resolution ends."""
+import copy
 import json
 import os
+import re
 import signal
 import sys
 
 import attr_util as au
 import snippet_util as su
-from common import enc_str, VERIF
+from common import enc_str, VERIF, Reader
 from markup_util import enc_config, decode_expand, impl_expand, NotModelled, canon_cfg
 
 PLAIN = ['div', 'p', 'span', 'x-y', 'custom', 'em']      # not snippet keys
 USER_KEYS = ['s1', 's2', 's3', 's4', 's5', 's6']
+ODD_KEYS = ['a:b', 'k-1', '!x', 'u_v', 'T9', '-z']          # the other characters of a key text (`:` `-` `!` `_`, digit/dash first)
+KEY_TEXT_RE = re.compile(r'[A-Za-z0-9_:!-]+\Z')             # = proofs/SnippetAliasParse.key_text
 
 
 TIME_LIMIT = 10.0        # seconds per expansion; generated tables expand in milliseconds
@@ -100,7 +104,7 @@ def rand_definition(rng, names):
 
 def rand_table(rng):
     n = rng.randint(1, 6)
-    keys = USER_KEYS[:n]
+    keys = (USER_KEYS if rng.random() < 0.7 else ODD_KEYS)[:n]
     cyclic_ok = rng.random() < 0.6
     table = {}
     for i, k in enumerate(keys):
@@ -137,6 +141,403 @@ def reaches_cycle(table, start):
         state[k] = 2
         return False
     return visit(start)
+
+
+# ---------------------------------------------------------------- the hypothesis of C14_alias_eq_definition
+_MENTIONS = {}      # id(cfg) -> (cfg, prepared Config, {definition text: mentions})
+
+
+def impl_mentions(defn, cfg):
+    """Definitions the text `defn` refers to: every node (any depth) of the definition, read by the
+    implementation's own parser the way resolve() reads it, whose name is a key with a non-empty value."""
+    from emmet.config import Config
+    from emmet.abbreviation import parse as abbreviation
+    ent = _MENTIONS.get(id(cfg))
+    if ent is None or ent[0] is not cfg:
+        config = Config(copy.deepcopy(cfg))
+        if config.get('text'):
+            config.user_config['text'] = None
+        if len(_MENTIONS) > 64:
+            _MENTIONS.clear()
+        ent = _MENTIONS[id(cfg)] = (cfg, config, {})
+    _, config, memo = ent
+    if defn in memo:
+        return memo[defn]
+    out = []
+    try:
+        tree = abbreviation(defn, config)
+    except Exception:  # noqa: a definition that does not parse mentions nothing (expansion fails anyway)
+        tree = None
+
+    def walk(n):
+        s = config.snippets.get(n.name) if n.name else None
+        if s:
+            out.append(s)
+        for c in n.children:
+            walk(c)
+    if tree is not None:
+        for c in tree.children:
+            walk(c)
+    memo[defn] = out
+    return out
+
+
+def parser_cycle(cfg, d, memo):
+    """Does following impl_mentions from the definition text d meet a text that is on the current path?
+    (depth-first on the implementation's parser; memo: text -> True (reaches a cycle) / False)."""
+    path = []
+
+    def visit(x):
+        if x in path:
+            return True
+        if x in memo:
+            return memo[x]
+        path.append(x)
+        r = any(visit(y) for y in impl_mentions(x, cfg))
+        path.pop()
+        memo[x] = r
+        return r
+    return visit(d)
+
+
+def parser_reaches_itself(cfg, d):
+    """Is the definition text d reachable from itself along impl_mentions (breadth-first closure)?"""
+    seen, todo = set(), list(impl_mentions(d, cfg))
+    while todo:
+        x = todo.pop()
+        if x == d:
+            return True
+        if x not in seen:
+            seen.add(x)
+            todo.extend(impl_mentions(x, cfg))
+    return False
+
+
+def text_reaches_itself(table, k):
+    """The same on the generated table with the harness' textual reader (by definition TEXT, as the guard is)."""
+    d = table[k]
+    keys = set(table)
+    seen, todo = set(), [table[x] for x in referenced(d, keys)]
+    while todo:
+        x = todo.pop()
+        if x == d:
+            return True
+        if x not in seen:
+            seen.add(x)
+            for y in keys:
+                if table[y] == x:
+                    todo.extend(table[z] for z in referenced(table[y], keys))
+                    break
+    return False
+
+
+def impl_key_is_one_node(k):
+    """The abbreviation `k` alone is one bare element named k (C14_key_is_one_node)."""
+    from emmet.abbreviation import parse as abbreviation
+    try:
+        t = abbreviation(k, {})
+    except Exception:  # noqa
+        return False
+    if len(t.children) != 1:
+        return False
+    n = t.children[0]
+    return (n.name == k and n.value is None and not n.attributes and n.repeat is None and not n.children
+            and not n.self_closing)
+
+
+def acyclicity_tie(ctx, tables):
+    """tables: [(cfg, table)].  The decidable predicates of the theorem (extracted: acyclic_from, acyclic_table,
+    mentions, def_of, key_text) against the harness' own textual walk (reaches_cycle / referenced) and against
+    the implementation's parser (impl_mentions, impl_key_is_one_node)."""
+    snip = ctx.model('snip')
+    if snip is None:
+        return
+    wires, meta = [], []
+    n_tab = 0
+    for cfg, table in tables:
+        try:
+            ec = enc_config(cfg)
+        except NotModelled:
+            ctx.cover('C14:tie-not-modelled')
+            continue
+        n_tab += 1
+        if n_tab <= 300 or 'snippets' not in cfg:      # the whole-table predicate walks all built-in snippets as well: a sample
+            wires.append([2] + ec)
+            meta.append(('table', cfg, table, None))
+        for k, d in table.items():
+            wires.append([1] + ec + enc_str(d))
+            meta.append(('from', cfg, table, k))
+            wires.append([3] + ec + enc_str(d))
+            meta.append(('mentions', cfg, table, k))
+            wires.append([4] + ec + enc_str(k))
+            meta.append(('def', cfg, table, k))
+            wires.append([5] + enc_str(k))
+            meta.append(('key', cfg, table, k))
+            wires.append([6] + ec + enc_str(d))
+            meta.append(('self', cfg, table, k))
+    dis = 0
+    n = 0
+    for (kind, cfg, table, k), w in zip(meta, snip.run(wires)):
+        r = Reader(w)
+        n += 1
+        user = 'snippets' in cfg          # a generated table (no groups, no built-in names): the textual reader applies
+        if kind == 'table':
+            # the configuration's table = the user's snippets over the built-in ones of the syntax
+            from emmet.config import Config
+            got = r.bool()
+            memo = {}
+            want = not any(parser_cycle(cfg, x, memo) for x in Config(copy.deepcopy(cfg)).snippets.values() if x)
+            ctx.cover('C14:tie-table-%s' % ('acyclic' if got else 'cyclic'))
+        elif kind == 'from':
+            got = r.bool()
+            want = not parser_cycle(cfg, table[k], {})
+            if user and want != (not reaches_cycle(table, k)):
+                want = ('parser walk', want, 'textual walk', not want)
+            ctx.cover('C14:tie-key-%s' % ('acyclic' if got else 'cyclic'))
+        elif kind == 'self':
+            got = r.bool()
+            want = not parser_reaches_itself(cfg, table[k])
+            if user and want != (not text_reaches_itself(table, k)):
+                want = ('parser walk', want, 'textual walk', not want)
+            ctx.cover('C14:tie-key-%s' % ('self-free' if got else 'reaches-itself'))
+        elif kind == 'mentions':
+            got = r.list(r.str)
+            want = impl_mentions(table[k], cfg)
+            textual = sorted(set(table[x] for x in referenced(table[k], set(table))))
+            if user and sorted(set(want)) != textual:
+                got = ('model', got, 'textual', textual)          # the harness' textual reader disagrees with the parser
+        elif kind == 'def':
+            got = r.opt(r.str)
+            want = table[k] or None
+        else:
+            got = r.bool()
+            want = bool(KEY_TEXT_RE.match(k))
+            if got and not impl_key_is_one_node(k):
+                want = ('impl: not one bare node',)
+        if got != want:
+            dis += 1
+            if dis <= 5:
+                ctx.say('DISAGREE C14 acyclicity tie (%s) key=%r table=%r cfg=%s\n  theorem predicate %r\n  harness/impl      %r'
+                        % (kind, k, table, canon_cfg(cfg), got, want))
+                ctx.broken.append({'kind': 'correspondence', 'file': 'snip-C14-' + kind, 'input': k, 'table': table,
+                                   'config': canon_cfg(cfg), 'model': repr(got)[:300], 'impl': repr(want)[:300]})
+    ctx.cov['correspondence']['snip_C14_acyclicity'] = {'cases': n, 'disagreements': dis}
+
+
+# ---------------------------------------------------------------- the theorems about walk_resolve, on the implementation
+_RESOLVED_CFG = {}
+
+
+def impl_resolved(abbr, cfg):
+    """The abbreviation parsed the way markup.parse does and run through resolve_snippets ONLY (before the
+    transform pass): ('ok', nested forest) with nodes [name, value, repeat, attrs, self_closing, children]."""
+    from emmet.config import Config
+    from emmet.abbreviation import parse as abbreviation
+    from emmet.markup.snippets import resolve_snippets
+    from emmet.abbreviation.tokenizer.tokens import Field
+    from markup_util import classify_exc
+    vts = {'raw': 0, 'singleQuote': 1, 'doubleQuote': 2, 'expression': 3}
+
+    def val(v):
+        if v is None:
+            return None
+        return [('s', t) if isinstance(t, str) else ('f', t.index, t.name) if isinstance(t, Field) else ('?', repr(t)) for t in v]
+
+    def attrs(l):
+        if l is None:
+            return None
+        return [(a.name, val(a.value), vts.get(a.value_type, a.value_type), bool(a.boolean), bool(a.implied), bool(a.multiple))
+                for a in l]
+
+    def nest(n):
+        rp = n.repeat
+        return [n.name, val(n.value), None if rp is None else (rp.count, rp.value, bool(rp.implicit)), attrs(n.attributes),
+                bool(n.self_closing), [nest(c) for c in n.children]]
+    ent = _RESOLVED_CFG.get(id(cfg))
+    if ent is None or ent[0] is not cfg:
+        if len(_RESOLVED_CFG) > 16:
+            _RESOLVED_CFG.clear()
+        ent = _RESOLVED_CFG[id(cfg)] = (cfg, Config(copy.deepcopy(cfg)))      # resolve_snippets only reads the Config
+    config = ent[1]
+    text = config.get('text')
+    try:
+        tree = abbreviation(abbr, {'text': text, 'variables': config.variables, 'options': config.options,
+                                   'max_repeat': config.get('maxRepeat') or config.get('max_repeat'),
+                                   'jsx': bool(config.options.get('jsx.enabled')), 'href': config.options.get('markup.href')})
+        if text:
+            config.user_config['text'] = None
+        try:
+            resolve_snippets(tree, config)
+        finally:
+            if text:
+                config.user_config['text'] = text
+    except Exception as e:  # noqa
+        return classify_exc(e)
+    return ('ok', [nest(c) for c in tree.children])
+
+
+def flatten(forest, d=0):
+    out = []
+    for n in forest:
+        out.append((d, n[0], n[1], n[2], n[3], n[4]))
+        out += flatten(n[5], d + 1)
+    return out
+
+
+def attach_deepest_py(forest, kids):
+    """find_deepest: below the end of the last-child chain of the last top-level node."""
+    forest = copy.deepcopy(forest)
+    n = forest[-1]
+    while n[5]:
+        n = n[5][-1]
+    n[5] = n[5] + copy.deepcopy(kids)
+    return forest
+
+
+def on_tops(forest, f):
+    out = copy.deepcopy(forest)
+    for n in out:
+        f(n)
+    return out
+
+
+FRESH = 'zzq'          # a name that is no snippet key: carries the decoration alone
+
+
+def resolved_forms(k, cfg, reverse):
+    """[(form, abbreviation, expected resolved forest)] for the decorated alias k, computed from the resolved
+    forest of the bare alias and of the decoration written on a name that is no alias.  These are
+    C14_alias_attributes / _children / _repeat / _text / _self_closing (alias_merge: for ALL tables, cyclic or not)."""
+    base = impl_resolved(k, cfg)
+    if base[0] != 'ok':
+        return base, []
+    base = base[1]
+    deco = impl_resolved(FRESH + '.extra[t=v]', cfg)
+    kid = impl_resolved(FRESH, cfg)
+    if deco[0] != 'ok' or kid[0] != 'ok' or len(deco[1]) != 1 or deco[1][0][0] != FRESH:
+        return ('ok', base), []
+    extra = deco[1][0][3]
+
+    def add(n):
+        n[3] = (extra + (n[3] or [])) if reverse else ((n[3] or []) + extra)
+    forms = [('attributes', k + '.extra[t=v]', on_tops(base, add)),
+             ('children', k + '>' + FRESH, attach_deepest_py(base, kid[1]) if base else []),
+             ('text', k + '{T}', on_tops(base, lambda n: n.__setitem__(1, [('s', 'T')]))),
+             ('self-closing', k + '/', on_tops(base, lambda n: n.__setitem__(4, True)))]
+    rep = []
+    for i in range(3):
+        rep += on_tops(base, lambda n, i=i: n.__setitem__(2, (3, i, False)))
+    forms.append(('repeat', FRESH + '>' + k + '*3', [[FRESH, None, None, None, False, rep]]))
+    return ('ok', base), forms
+
+
+def resolved_case(k, d, cfg, reverse, self_free):
+    """Oracle on the resolver of the implementation.  Returns (failures, [(abbr, impl result)] for the model tie)."""
+    fails, seen = [], []
+    base, forms = resolved_forms(k, cfg, reverse)
+    seen.append((k, base))
+    for form, abbr, want in forms:
+        got = impl_resolved(abbr, cfg)
+        seen.append((abbr, got))
+        if got != ('ok', want):
+            fails.append((form, abbr, 'resolve_snippets(%r) is not the resolved definition of %r with the %s of the alias applied: got %r, '
+                          'expected %r' % (abbr, k, form, str(flatten(got[1]) if got[0] == 'ok' else got)[:260], str(flatten(want))[:260])))
+    if self_free and base[0] == 'ok':
+        rd = impl_resolved(d, cfg)
+        seen.append((d, rd))
+        if rd != base:
+            fails.append(('alone', k, 'resolve_snippets(%r) differs from resolve_snippets of its definition %r (which does not reach itself): '
+                          '%r against %r' % (k, d, str(flatten(base[1]))[:260], str(flatten(rd[1]) if rd[0] == 'ok' else rd)[:260])))
+    return fails, seen
+
+
+def plain_reading(cfg):
+    """jsx off, no wrap text, no maxRepeat: the definition reads the same in the abbreviation as in the table."""
+    return cfg.get('syntax') not in ('jsx',) and not cfg.get('text') and 'maxRepeat' not in cfg and 'max_repeat' not in cfg \
+        and not (cfg.get('options') or {}).get('jsx.enabled')
+
+
+def tok_ext_holds(d, c='zzq'):
+    """The tokenizer hypothesis of C14_child_reads_below_flat on the implementation: `d>c` is tokenized as the tokens of d,
+    the operator `>` and the literal c.  None when d does not tokenize."""
+    from emmet.abbreviation.tokenizer import tokenize
+
+    def sig(t):
+        return (type(t).__name__, tuple((k, repr(getattr(t, k))) for k in sorted(dir(t)) if not k.startswith('_') and not callable(getattr(t, k))))
+    try:
+        a = tokenize(d)
+    except Exception:  # noqa
+        return None
+    try:
+        b = tokenize(d + '>' + c)
+    except Exception:  # noqa
+        return False
+    if len(b) != len(a) + 2 or [sig(t) for t in b[:len(a)]] != [sig(t) for t in a]:
+        return False
+    gt, ct = b[-2], b[-1]
+    return type(gt).__name__ == 'Operator' and getattr(gt, 'operator', None) == 'child' \
+        and type(ct).__name__ == 'Literal' and ct.value == c
+
+
+def resolved_tie(ctx, tables):
+    """Every key of every generated table (and of the built-in tables): the decorated-alias theorems as an oracle on
+    resolve_snippets, and the same resolved trees through the extracted model (SnipRun 7)."""
+    snip = ctx.model('snip')
+    wires, impl = [], []
+    for cfg, table in tables:
+        user = 'snippets' in cfg
+        reverse = bool((cfg.get('options') or {}).get('output.reverseAttributes'))
+        try:
+            ec = enc_config(cfg)
+        except NotModelled:
+            ec = None
+        for k, d in table.items():
+            if mentions_lorem_text(k + d):
+                continue
+            if user:
+                sf = not text_reaches_itself(table, k)
+            else:
+                sf = not parser_reaches_itself(cfg, d)
+            te = tok_ext_holds(d)
+            ctx.cover('C14:tok-ext:%s' % ('holds' if te else 'not-tokenized' if te is None else 'fails'))
+            if te is False:
+                ctx.sample({'tok_ext_fails_for_definition': d})
+            fails, seen = resolved_case(k, d, cfg, reverse, sf and plain_reading(cfg))
+            ctx.count_eval(len(seen))
+            ctx.cover('C14:resolved:%s' % ('self-free' if sf else 'reaches-itself'))
+            for form, abbr, why in fails:
+                ctx.property_failure('C14:resolved:%s|%s' % (abbr, canon_cfg(cfg)), 'C14 ' + why,
+                                     {'component': 'C14-resolved', 'key': k, 'definition': d, 'config': cfg, 'reverse': reverse,
+                                      'self_free': sf and plain_reading(cfg), 'form': form, 'why': why})
+            if ec is not None:
+                for abbr, r in seen:
+                    wires.append([7] + ec + enc_str(abbr))
+                    impl.append((abbr, cfg, r))
+    dis = 0
+    if os.environ.get('C14_TIMING'):
+        import time as _t
+        ctx.say('TIMING   resolved tie: implementation side done at %s' % _t.strftime('%X'))
+    if snip is not None and wires:
+        outs = snip.run(wires)
+        if os.environ.get('C14_TIMING'):
+            ctx.say('TIMING   resolved tie: model side done at %s' % _t.strftime('%X'))
+        for (abbr, cfg, r), w in zip(impl, outs):
+            mo = au.decode_tree(w)
+            im = ('ok', flatten(r[1])) if r[0] == 'ok' else r
+            if im[0] == 'recursion':
+                continue
+            if mo != im:
+                dis += 1
+                if dis <= 5:
+                    ctx.say('DISAGREE C14 resolved tree %r cfg=%s\n  impl  %r\n  model %r' % (abbr, canon_cfg(cfg), str(im)[:300], str(mo)[:300]))
+                    ctx.broken.append({'kind': 'correspondence', 'file': 'snip-C14-resolved', 'input': abbr, 'config': canon_cfg(cfg),
+                                       'impl': repr(im)[:300], 'model': repr(mo)[:300]})
+    ctx.cov['correspondence']['snip_C14_resolved_tree'] = {'cases': len(wires), 'disagreements': dis}
+
+
+def mentions_lorem_text(s):
+    return 'lorem' in s.lower()
+
 
 
 # ---------------------------------------------------------------- cases
@@ -197,7 +598,7 @@ def multikey_check(ctx):
                                  {'component': 'C14-multikey', 'table': nm, 'names': diff})
 
 
-def user_cases(ctx, n_tables):
+def user_cases(ctx, n_tables, tables=None):
     rng = ctx.rng
     cases = []
     for _ in range(n_tables):
@@ -210,9 +611,11 @@ def user_cases(ctx, n_tables):
             cfg['syntax'] = rng.choice(['xml', 'jsx'])
         bound = len(set(table.values()))
         any_cycle = False
+        if tables is not None:
+            tables.append((cfg, table))
         for k, d in table.items():
-            cyc = reaches_cycle(table, k)
-            any_cycle = any_cycle or cyc
+            any_cycle = any_cycle or reaches_cycle(table, k)
+            cyc = text_reaches_itself(table, k)          # the hypothesis of C14_alias_eq_definition (self_free) fails
             for kind, a, b in su.alias_pairs(k, d, rev):
                 cases.append({'kind': ('user-cyclic:' if cyc else 'user:') + kind, 'a': a, 'b': b, 'config': cfg,
                               'equal': not cyc, 'bound': bound})
@@ -261,27 +664,54 @@ def check_case(c):
             bad = [n[1] for n in tops if n[3] is None or n[3][0] != 2]
             if bad or not tops:
                 return 'nodes %r that replace the alias in `ul>KEY*2` do not carry the alias repeater' % (bad[:4],), ra, depth
+        # ... also when the definition has repeaters of its own (C14_alias_repeat: the alias' repeater replaces them):
+        # in `ul>KEY*3` copy i of the alias is replaced by the definition's top-level nodes, each with repeat (3, i)
+        if c['a'].endswith('*2'):
+            a3 = c['a'][:-1] + '3'
+            t = au.impl_tree(a3, c['config'])
+            if t[0] == 'ok':
+                reps = [n[3] for n in t[1] if n[0] == 1]
+                m = len(reps) // 3
+                want = [(3, i, False) for i in range(3) for _ in range(m)]
+                if len(reps) % 3 or [tuple(r) if r else r for r in reps] != want:
+                    return ('the nodes that replace the three copies of the alias in %r carry the repeaters %r, not (3,0) (3,1) (3,2) on '
+                            'each copy\'s top-level nodes' % (a3, reps[:9])), ra, depth
     return None, ra, depth
 
 
 def run(ctx):
-    ok = ctx.build(['props/C14.vo', 'run/MarkupRun.vo', 'run/AttrRun.vo'])
+    import time as _t
+    _t0 = [_t.time()]
+
+    def lap(name):
+        if os.environ.get('C14_TIMING'):
+            ctx.say('TIMING %s %.1fs' % (name, _t.time() - _t0[0]))
+        _t0[0] = _t.time()
+    ok = ctx.build(['props/C14.vo', 'run/MarkupRun.vo', 'run/AttrRun.vo', 'run/SnipRun.vo'])
     if ok:
         ctx.obligations('props/C14.v')
+    lap('build+obligations')
     model = ctx.model('markup') if ok else None
     ctx.cov['rule'] = ('every key of the html/xsl/pug tables: alias alone, `ul>KEY*2`, `KEY.extra[t=v]`, `KEY>b` against the same '
                        'abbreviation with the definition written in its place by an independent textual reader (harness/snippet_util.py), '
                        'with and without reverseAttributes; random user tables of 1-6 snippets (multi-node definitions, children, '
                        'repeaters, text, cycles in 60% of the tables): termination, nesting depth of resolve() <= number of distinct '
-                       'definitions (observed by wrapping the parse call), alias = definition for keys that do not reach a cycle; '
+                       'definitions (observed by wrapping the parse call), alias = definition for every key whose definition does not '
+                       'reach itself (the hypothesis self_free of C14_alias_eq_definition; the extracted predicates self_free / acyclic_from / '
+                       'acyclic_table / mentions / key_text are compared with a textual walk and a walk on the implementation\'s parser); '
+                       'the decorated-alias theorems (attributes / children below find_deepest / repeater / text / self-closing applied to the resolved '
+                       'definition; bare alias = definition for definitions that do not reach themselves) as an oracle on resolve_snippets '
+                       '(trees before the transform pass) for every key, the same trees through the extracted model; '
                        'parse_snippets multi-key expansion; every alias form also through the extracted model. '
                        'non-trivial = decorated alias or user table; distinct by abbreviation + config.')
     multikey_check(ctx)
     cases = corpus_cases()
     n_corpus = len(cases)
     cases += builtin_cases()
-    cases += user_cases(ctx, 400 if ctx.tier == 'quick' else 6000)
+    tables = []
+    cases += user_cases(ctx, 400 if ctx.tier == 'quick' else 4000, tables)
     cases += variable_round_cases()
+    lap('generate')
     wires, idx, impl = [], [], []
     maxdepth = 0
     timeouts = 0
@@ -310,6 +740,7 @@ def run(ctx):
                 idx.append(k)
             except NotModelled:
                 ctx.cover('C14:not-modelled')
+    lap('impl+oracle')
     dis = 0
     if wires:
         outs = model.run(wires)
@@ -323,8 +754,21 @@ def run(ctx):
                     ctx.broken.append({'kind': 'correspondence', 'file': 'markup-C14', 'input': c['a'], 'config': canon_cfg(c['config']),
                                        'impl': repr(impl[k])[:300], 'model': repr(mo)[:300]})
     ctx.cov['correspondence']['markup_C14'] = {'cases': len(wires), 'disagreements': dis}
+    lap('markup model')
     if ok:
         au.compare_trees(ctx, 'C14', [(c['a'], c['config']) for c, r in zip(cases, impl) if r[0] == 'ok'])
+        from emmet.snippets import markup_snippets, xsl_snippets, pug_snippets
+        builtin_tables = [({'syntax': 'html'}, dict(markup_snippets)),
+                          ({'syntax': 'xsl'}, {**markup_snippets, **xsl_snippets}),
+                          ({'syntax': 'pug'}, {**markup_snippets, **pug_snippets}),
+                          ({'syntax': 'html', 'options': {'output.reverseAttributes': True}}, dict(markup_snippets))]
+        lap('tree compare')
+        acyclicity_tie(ctx, tables + builtin_tables[:3])
+        lap('acyclicity tie')
+        # the resolver oracle: html table in both attribute orders, the keys xsl / pug add or override, and the user tables
+        resolved_tie(ctx, tables[:250 if ctx.tier == 'quick' else 2000] +
+                     [builtin_tables[0], builtin_tables[3], ({'syntax': 'xsl'}, dict(xsl_snippets)), ({'syntax': 'pug'}, dict(pug_snippets))])
+        lap('resolved tie')
     ctx.cov['corpus_cases'] = n_corpus
     ctx.cov['max_resolve_depth_seen'] = maxdepth
     for c, r in list(zip(cases, impl))[-40:-36]:
@@ -347,6 +791,13 @@ def replay(ctx, obj):
             multikey_check(c)
             print('parse_snippets multi-key check: %s' % ('fails' if c.failed else 'holds'))
             return 1 if c.failed else 0
+        if rp.get('component') == 'C14-resolved':
+            fails, _ = resolved_case(rp['key'], rp['definition'], rp['config'], rp['reverse'], rp['self_free'])
+            for form, abbr, why in fails:
+                print('property oracle (resolver): %s' % why)
+            if not fails:
+                print('property oracle (resolver): holds for key %r' % rp['key'])
+            return 1 if fails else 0
         print('replay names a broken obligation, no input: %s' % str(rp)[:300])
         return 1
     why, ra, depth = check_case(rp)
